@@ -50,9 +50,30 @@ func atom(tag string) (tok, MalType) {
 func expr(tag string, depth int) ([]tok, MalType) {
 	var pre []tok
 	wrap := func(v MalType) MalType { return v }
-	if vrt.Bool(tag + "/q") {
-		pre = append(pre, tok{text: "'", noCut: true})
-		wrap = func(v MalType) MalType { return List{Val: []MalType{Symbol{Val: "quote"}, v}} }
+	// reader-macro prefixes: ' ` ~ ~@ @ and ^meta (a cut right behind one cannot be completed by closers alone)
+	// (all of them on the outermost expression; none / ' / ^:m on nested ones, to keep the space small)
+	nq := 3
+	if depth == vrt.Param("depth", 2) {
+		nq = 8
+	}
+	q := vrt.Concrete(vrt.Choice(tag+"/q", nq))
+	if nq == 3 && q == 2 {
+		q = 6
+	}
+	switch q {
+	case 1, 2, 3, 4, 5:
+		mark := []string{"'", "`", "~", "~@", "@"}[q-1]
+		head := []string{"quote", "quasiquote", "unquote", "splice-unquote", "deref"}[q-1]
+		pre = append(pre, tok{text: mark, noCut: true})
+		wrap = func(v MalType) MalType { return List{Val: []MalType{Symbol{Val: head}, v}} }
+	case 6:
+		pre = append(pre, tok{text: "^", noCut: true}, tok{text: ":m", noCut: true})
+		wrap = func(v MalType) MalType { return List{Val: []MalType{Symbol{Val: "with-meta"}, v, NewKeyword("m")}} }
+	case 7:
+		pre = append(pre, tok{text: "^", noCut: true}, tok{text: "{", open: "}", noCut: true}, tok{text: ":m", noCut: true}, tok{text: "1"}, tok{text: "}", close: true, noCut: true})
+		wrap = func(v MalType) MalType {
+			return List{Val: []MalType{Symbol{Val: "with-meta"}, v, HashMap{Val: map[string]MalType{NewKeyword("m"): 1}}}}
+		}
 	}
 	if vrt.Bool(tag + "/c") {
 		// a comment line with symbolic content (brackets included) before the expression
